@@ -33,6 +33,8 @@ THEOREMS = [
     "PV.C11.prec_table_ok",
     "PV.C11.prec_table_exact",
     "PV.C11.dict_unpack_regression",
+    "PV.C11.comp_target_regression",
+    "PV.C11.fx_target_eq_elem",
     "PV.C11.parse_unparse_partial",
     "PV.C11.parse_unparse_partial_atX",
     "PV.C11.parse_unparse_partial_at",
@@ -42,6 +44,7 @@ THEOREMS = [
     "PV.C11.unparse_fixpoint",
     "PV.C11.parse_unparse_fails",
     "PV.C11.dict_unpack_roundtrip",
+    "PV.C11.comp_target_roundtrip",
     "PV.C11.float_near_one_roundtrip",
     "PV.C11.fstring_witness",
 ]
@@ -71,19 +74,19 @@ PARTIAL = [
     "elements; Dict displays (key:value and **value entries); Await; Yield (also with a Starred value), YieldFrom; "
     "BoolOp, UnaryOp, BinOp (all 13 operators incl. right-associative **), Compare, IfExp; Lambda with every parameter "
     "kind (positional-only `/`, defaults, *args, keyword-only, **kw); ListComp / SetComp / DictComp / GeneratorExp "
-    "with any number of for / if clauses, async, bare-tuple and Starred targets; NamedExpr — nested arbitrarily, of "
-    "any size, with every parenthesisation the unparser produces.  Side conditions beyond the grammar's shape (each is a "
-    "check the parser makes when it builds the node, or what it reads at that position): a lambda's positional "
+    "with any number of for / if clauses, async, and ANY target the parser reads there (it does not validate "
+    "assignment targets: conditionals, lambdas, and / or / not, comparisons, named expressions, Starred, bare tuples of "
+    "these — fx_target_eq_elem; in the fragment since /repo's repair of unparse_comp); NamedExpr — nested arbitrarily, "
+    "of any size, with every parenthesisation the unparser produces.  Side conditions beyond the grammar's shape (each "
+    "is a check the parser makes when it builds the node): a lambda's positional "
     "parameters have no default-less parameter after a defaulted one and all its parameter names are distinct "
-    "(validate_pos_params / validate_arguments), the keyword names of a call are distinct (parse_args), a "
-    "comprehension target is an Expression-level operand, a Starred, or a bare tuple of those (no lambda / conditional "
-    "/ and / or / not / comparison / named expression there: the unparser renders the target at tuple level).  "
+    "(validate_pos_params / validate_arguments), the keyword names of a call are distinct (parse_args).  "
     "The full statement parse_unparse_full over every WF expression additionally has f-strings (JoinedStr / "
     "FormattedValue): their round trip goes through TEXT (the field text is re-lexed by string.rs), which the "
     "token-level theorem does not cover; it is stated, not proved — f-strings are covered by correspondence and by "
     "prec_table_ok / prec_table_exact / unparse_shape / unparse_slot_levels (slot fstringField)",
-    "WF (lean/PV/Expr/Syntax.lean) is laxer than what the parser can produce in three places that InFragmentX makes "
-    "precise (comprehension targets, nesting of slices inside tuple indices, the lambda / call side conditions above), "
+    "WF (lean/PV/Expr/Syntax.lean) is laxer than what the parser can produce in two places that InFragmentX makes "
+    "precise (nesting of slices inside tuple indices, the lambda / call side conditions above), "
     "so parse_unparse_wf_partial (every WF tree minus the finding shapes) is not claimed; inFragX_wf proves "
     "InFragmentX ⊆ WF",
     "the theorem is about tokens; text-level facts (spacing, literal spelling, re-lexing) are correspondence only "
@@ -92,18 +95,19 @@ PARTIAL = [
     "fuelFor; the driver's bound is exercised by correspondence",
     "parse_unparse_full is false for the code as it is (parse_unparse_fails, witness fstring_witness): f-strings whose "
     "body needs escapes inside a replacement field; u-prefixed pieces of f-strings lose their kind.  Fixed in /repo "
-    "and now regression theorems: dict `**` operands below `|` (dc8e40d), the float 0.9999999999999999 (5be0365)",
+    "and now regression theorems: dict `**` operands below `|` (dc8e40d), the float 0.9999999999999999 (5be0365), "
+    "comprehension targets below `|` (comp_target_regression, comp_target_roundtrip)",
 ]
 READY = True
 TECHNIQUE = ("Lean 4 theorems over a hand-written model of the unparser and a reference parser + differential "
              "correspondence of both with the real crates + behaviourally extracted parenthesisation table")
 LEVEL_TEXT = ("Machine-checked Lean 4: (1) for every (parent slot, child kind) pair the unparser model parenthesises "
-              "whenever the grammar cannot derive the child bare — all 1831 admissible pairs, no exception; (2) for every expression the model's parenthesisation is "
+              "whenever the grammar cannot derive the child bare — all 1883 admissible pairs, no exception; (2) for every expression the model's parenthesisation is "
               "exactly that table; (3) for every expression built from names, constants, attribute / subscript / call "
               "trailers (slices, tuple indices, starred / keyword / `**` arguments, the bare generator argument), list / "
               "tuple / set / dict displays (starred elements, `**` entries), await / yield, the boolean, unary, binary, "
               "comparison and conditional operators, lambda with every parameter kind, the four comprehension forms "
-              "(several for / if clauses, async) and named expressions, of any size, the reference parser reads the "
+              "(several for / if clauses, async, any target the parser reads) and named expressions, of any size, the reference parser reads the "
               "model's token output back as the same tree and rendering is a fixed point. The model and the reference "
               "parser are tied to the Rust code on every run by byte-exact correspondence on directed, random and "
               "CPython-stdlib expression streams and by a parenthesisation table extracted from the real unparser.")
@@ -143,7 +147,7 @@ SLOTS = ([("top", "%s")]
             ("setElt", "{%s, q}"), ("listElt", "[%s, q]"), ("tupleElt", "(%s, q)"), ("subTupleElt", "p[%s, q]"),
             ("listCompElt", "[%s for p in q]"), ("setCompElt", "{%s for p in q}"), ("genExpElt", "(%s for p in q)"),
             ("dictCompKey", "{%s: r for p in q}"), ("dictCompValue", "{r: %s for p in q}"),
-            ("compTarget", "[r for %s in q]"), ("compIter", "[r for p in %s]"), ("compIf", "[r for p in q if %s]"),
+            ("compTarget", "[r for %s in q]"), ("compTargetElt", "[r for %s, q in p]"), ("compIter", "[r for p in %s]"), ("compIf", "[r for p in q if %s]"),
             ("yieldValue", "(yield %s)"), ("yieldFromValue", "(yield from %s)"),
             ("callFunc", "%s(q)"), ("callArg", "p(%s, q)"), ("callKwValue", "p(k=%s)"), ("callDstarValue", "p(**%s)"),
             ("attrValue", "%s.r"), ("subValue", "%s[q]"), ("subSlice", "p[%s]"),
@@ -156,12 +160,11 @@ LOW_PREC_KINDS = {"lambda", "ifExp", "boolOp.and", "boolOp.or", "unary.not", "co
 def admissible(slot, kind):
     """mirror of PV.C11.admissible"""
     if kind == "starred":
-        return slot in ("setElt", "listElt", "tupleElt", "subTupleElt", "callArg", "subSlice", "listCompElt")
+        return slot in ("setElt", "listElt", "tupleElt", "subTupleElt", "callArg", "subSlice", "listCompElt",
+                        "compTarget", "compTargetElt")
     if kind == "slice":
         return slot in ("subSlice", "subTupleElt")
-    if kind in ("tuple", "atom"):
-        return True
-    return slot != "compTarget"
+    return True
 
 
 def fill(tmpl, x):
@@ -632,6 +635,19 @@ def classify(req, impl_out, model_out, failure):
     return None
 
 
+_FSTRING_LITERAL = re.compile(r"""(?<![A-Za-z0-9_])(?:[fF][rR]?|[rR][fF])['"]""")
+
+
+def cand_ok(src):
+    """a candidate of the violation search: no known-finding shape in it.  Where CPython rejects the source (this
+    parser accepts more, e.g. any expression as a comprehension target) the shapes — all about f-strings — are
+    excluded by the absence of f-string literals."""
+    t = py_tree(src)
+    if t is not None:
+        return not finding_shapes(t)
+    return not _FSTRING_LITERAL.search(src)
+
+
 def search(ctx, disagreements, bins):
     """Violation search: the model no longer predicts the implementation on some inputs although the oracle was
     content with them.  Put each disagreeing expression (and its rendering) into every parent slot, both bare
@@ -644,6 +660,7 @@ def search(ctx, disagreements, bins):
         # streams were not run: judge the real code on the directed enumeration and the corpus
         cands = directed_requests(full=False) + [s for s in CORPUS if py_tree(s) is not None
                                                  and not finding_shapes(py_tree(s))]
+        cands += [s for s in TARGET_CORPUS + target_requests() if cand_ok(s)]
         reqs = [req(c) for c in cands]
         outs = core.run_lines([hbin], reqs, jobs=8)
         for r, o in zip(reqs, outs):
@@ -669,7 +686,7 @@ def search(ctx, disagreements, bins):
         for _, tmpl in SLOTS:
             for inner in ("(" + s + ")", s):
                 c = fill(tmpl, inner)
-                if c not in seen and py_tree(c) is not None and not finding_shapes(py_tree(c)):
+                if c not in seen and cand_ok(c):
                     seen.add(c)
                     cands.append(c)
         for _, tmpl1 in SLOTS[::5]:
@@ -1000,6 +1017,145 @@ def directed_requests(full):
             seen.add(s)
             res.append(s)
     return res
+
+
+# ---- comprehension targets (the parser does not validate them; CPython rejects most of these sources, so these
+# ---- streams are NOT filtered by CPython acceptance as all the others are)
+
+# hand-written: the reproduction inputs of the (fixed) finding and the targets that always round-tripped
+TARGET_CORPUS = [
+    "[x for (a if b else c) in y]", "[x for (lambda: a) in y]", "[x for (a or b) in y]", "[x for (a and b) in y]",
+    "[x for (not a) in y]", "[x for (a < b) in y]", "[x for (a := b) in y]", "[x for (a in b) in y]",
+    "[x for (a not in b) in y]", "[x for (a is b) in y]", "[x for (not a in b) in y]",
+    "[x for (a or b), c in y]", "[x for c, (a if b else c) in y]", "[x for (lambda: a), in y]",
+    "[x for (a := b), c in y]", "[x for (a, (b or c)) in y]", "[x for (a if b else c), (lambda: d) in y]",
+    "[x for (a if b else c), (lambda: d), *e, (f := 1), (g, h) in y for (not a) in z for (a < b or c), in w]",
+    "{x for (a if b else c) in y}", "{x: z for (a if b else c) in y}", "(x for (a if b else c) in y)",
+    "f(x for (a if b else c) in y)", "[x async for (a if b else c) in y]", "[x for p in q for (a or b), c in y]",
+    "[x for (lambda p, /, q=1, *r, s, **t: p), u in y]", "[x for (a if (b if c else d) else e) in y]",
+    "[x for ((a or b) and c) in y]", "[x for (a or b) | c in y]", "[x for -(a or b) in y]", "[x for (a or b).c in y]",
+    "[x for (a or b)[0] in y]", "[x for (a or b)(c) in y]", "[x for *(a or b), c in y]", "[x for [(a or b), c] in y]",
+    "[x for ((a or b), c), d in y]", "[x for (yield) in y]", "[x for (yield a), b in y]", "[x for (await a) in y]",
+    "[x for (await a), b in y]", "[x for 1 in y]", "[x for 'a', b'b' in y]", "[x for f'{a}' in y]", "[x for ... in y]",
+    "[x for None, True in y]", "[x for a + b, c ** d in y]", "[x for a | b in y]", "[x for ~a, -b, +c in y]",
+    "[x for *a, b in y]", "[x for (a, b), c in y]", "[x for a, in y]", "[x for *a in y]", "[x for *a, in y]",
+    "[x for (a, b) in y]", "[x for (a,) in y]", "[x for () in y]", "[x for (), in y]", "[x for ((a, b)) in y]",
+    "[x for ((a, b),) in y]", "[x for [a, b] in y]", "[x for [] in y]", "[x for {a: b} in y]", "[x for {a, b} in y]",
+    "[x for [a for a in b] in y]", "[x for (a for a in b) in y]", "[x for a.b, c[d], e(f) in y]", "[x for a, b, in y]",
+    "[x for (a if b else c) in (d if e else f) if (g if h else i)]",
+    "[[x for (a or b) in y] for (c and d) in [z for (not e) in w]]",
+    "lambda: [x for (lambda: a) in y]", "[x for (a := (b := c)) in y]", "[x for (a == b != c), d in y]",
+]
+
+# target element kinds beyond KINDS
+TARGET_EXTRA_KINDS = [("compare.in", "x in y"), ("compare.notIn", "x not in y"), ("compare.is", "x is y"),
+                      ("compare.isNot", "x is not y"), ("compare.chain", "x < y <= z"), ("not.in", "not x in y"),
+                      ("lambda.params", "lambda p, *q: x"), ("ifExp.nested", "x if y else z if w else v"),
+                      ("boolOp.mixed", "x and y or z"), ("yield", "(yield)"), ("genExp", "(x for x in y)"),
+                      ("call", "x(y)"), ("attribute", "x.y"), ("subscript", "x[y]"), ("list", "[x, y]"),
+                      ("emptyTuple", "()"), ("int", "1"), ("str", "'s'")]
+
+# where the element stands in the target list
+TARGET_POSITIONS = [("alone", "%s"), ("first", "%s, q"), ("last", "p, %s"), ("middle", "p, %s, q"), ("single", "%s,"),
+                    ("inParenTuple", "(p, %s), q"), ("parenTuple", "(%s, q)"), ("inList", "[%s, q]"),
+                    ("starred", "*%s, q")]
+
+# the comprehension around it
+TARGET_FRAMES = [("listComp", "[r for %s in y]"), ("setComp", "{r for %s in y}"), ("dictComp", "{r: s for %s in y}"),
+                 ("genExp", "(r for %s in y)"), ("callGen", "f(r for %s in y)"), ("async", "[r async for %s in y]"),
+                 ("secondClause", "[r for a in b if c for %s in y if d]"), ("firstClause", "{r async for %s in y for a in b}")]
+
+
+def target_requests():
+    """every child kind x position in the target list x comprehension form, child parenthesised and bare (a bare
+    low-precedence child is a different expression or a syntax error: both sides must agree on that as well)"""
+    out, seen = [], set()
+    for kname, sample in KINDS + TARGET_EXTRA_KINDS:
+        if kname == "slice":
+            continue
+        forms = [sample] if kname == "starred" else ["(" + sample + ")", sample]
+        for form in forms:
+            for pname, pos in TARGET_POSITIONS:
+                if kname == "starred" and pname == "starred":
+                    continue
+                for _, frame in TARGET_FRAMES:
+                    s = fill(frame, fill(pos, form))
+                    if s not in seen:
+                        seen.add(s)
+                        out.append(s)
+    return out
+
+
+def beyond_cpython_requests():
+    """what the directed enumeration and the corpus DROP because CPython rejects the source although this parser may
+    accept it (`[*x for p in q]`, `(yield *x)`, `p[*x:q]`-like shapes, starred / named / tuple / conditional children
+    slot in slot): the property quantifies over the trees of THIS parser"""
+    cands = []
+    for sname, tmpl, kname, sample in table_pairs():
+        for s in triple_sources(sname, tmpl, kname, sample):
+            if py_tree(s) is None:
+                cands.append(s)
+    cands += [s for s in CORPUS if py_tree(s) is None]
+    for s1, t1 in SLOTS:
+        for s2, t2 in SLOTS:
+            for kname, sample in (("starred", "*x"), ("namedExpr", "w := x"), ("tuple", "a, b"), ("ifExp", "x if y else z")):
+                if not admissible(s2, kname):
+                    continue
+                inner = fill(t2, sample if kname == "starred" else "(" + sample + ")")
+                for s in (fill(t1, "(" + inner + ")"), fill(t1, inner)):
+                    if py_tree(s) is None:
+                        cands.append(s)
+    return [s for s in dict.fromkeys(cands) if cand_ok(s) and in_lexer_domain(s)]
+
+
+def random_target_sources(rng, n, consts):
+    """comprehensions whose targets are random operands (what `ExpressionList` reads: `Expression`-level operands,
+    lower ones parenthesised, starred ones, bare tuples); every operand is checked with CPython on its own (finding
+    shapes, lexer / printability domain), the whole source is not — CPython rejects most of them"""
+    g = Gen(rng, consts)
+
+    def operand(d):
+        for _ in range(50):
+            try:
+                e = g.at(6, d)
+            except StopIteration:
+                continue
+            if len(e) > 200 or not in_lexer_domain(e):
+                continue
+            t = py_tree(e)
+            if t is None or finding_shapes(t) or not tree_in_domain(t):
+                continue
+            return e
+        return g.name()
+
+    def target(d):
+        k = rng.randrange(10)
+        if k < 4:
+            return operand(d)
+        if k == 4:
+            return "*" + operand(d)
+        n = rng.choice([1, 2, 2, 3, 4])
+        es = [("*" if rng.random() < 0.15 else "") + operand(d) for _ in range(n)]
+        if rng.random() < 0.2:
+            es[rng.randrange(n)] = "(" + ", ".join(operand(d - 1) for _ in range(rng.choice([1, 2, 3]))) + ",)"
+        return ", ".join(es) + ("," if n == 1 or rng.random() < 0.15 else "")
+
+    out, seen, tries = [], set(), 0
+    while len(out) < n and tries < 20 * n:
+        tries += 1
+        d = rng.choice([1, 1, 2, 2, 3])
+        clauses = ""
+        for _ in range(rng.choice([1, 1, 1, 2, 3])):
+            clauses += (" async for " if rng.random() < 0.1 else " for ") + target(d) + " in " + rng.choice(NAMES)
+            for _ in range(rng.choice([0, 0, 0, 1])):
+                clauses += " if " + rng.choice(NAMES)
+        frame = rng.choice(["[r%s]", "{r%s}", "{r: s%s}", "(r%s)", "f(r%s)", "[lambda: [r%s]]", "p + [r%s][0]"])
+        s = frame % clauses
+        if len(s) > 600 or s in seen:
+            continue
+        seen.add(s)
+        out.append(s)
+    return out
 
 
 # ---- constants of every kind
@@ -1475,6 +1631,21 @@ def streams(ctx):
                       note="every admissible (parent slot, child kind) pair, child parenthesised and bare; every "
                            "ordered operator pair on both nesting sides; every comparison operator x operand kind"
                            "; every slot-in-slot nesting for six child kinds"))
+    tg = [s for s in TARGET_CORPUS + target_requests() if cand_ok(s)]
+    out.append(Stream("comprehension-targets", [req(s) for s in tg], kind="exhaustive", exhaustive=True,
+                      nontrivial=lambda r: True,
+                      note="comprehension targets as the parser reads them (ExpressionList, not validated as assignment "
+                           "targets; not filtered by CPython acceptance): every child kind, parenthesised and bare, x "
+                           "position in the target list (alone, first / middle / last of the bare tuple, 1-tuple, inside "
+                           "a parenthesised tuple or list, under a star) x comprehension form (list, set, dict, "
+                           "generator, bare generator argument, async, first / second clause)"))
+    bc = beyond_cpython_requests()
+    out.append(Stream("beyond-cpython-directed", [req(s) for s in bc], kind="exhaustive", exhaustive=True,
+                      nontrivial=lambda r: True,
+                      note="the sources the directed enumeration and the corpus drop because CPython rejects them "
+                           "(`[*x for p in q]`, `(yield *x)`, starred / named / tuple / conditional children slot in slot, "
+                           "...): about three quarters are accepted by the parser under test, whose trees the property "
+                           "quantifies over; both sides must also agree on the rejected ones"))
     rng = ctx.rng("constants")
     cs = constant_sources(rng, 1200 if ctx.quick else 6000)
     out.append(Stream("constants", [req(s) for s in cs], kind="random", nontrivial=lambda r: True,
@@ -1491,6 +1662,12 @@ def streams(ctx):
                       note="grammar-directed random expressions over the whole fragment (all node kinds, lambda "
                            "parameter lists, comprehensions, slices, starred, f-strings with specs), random "
                            "redundant parentheses"))
+    rng = ctx.rng("random-targets")
+    rt = random_target_sources(rng, 4000 if ctx.quick else 30000, consts)
+    out.append(Stream("random-comprehension-targets", [req(s) for s in rt], kind="random", nontrivial=lambda r: True,
+                      note="comprehensions of every form whose targets are random operands of the whole fragment "
+                           "(parenthesised where the grammar needs it), starred operands and bare tuples of these; "
+                           "CPython rejects most of these sources, the parser under test builds the trees"))
     rng = ctx.rng("stdlib")
     hs = stdlib_expressions(400 if ctx.quick else 2000, rng, 40 if ctx.quick else 100)
     out.append(Stream("cpython-stdlib-expressions", [req(s) for s in hs], kind="corpus", nontrivial=_nontrivial,
